@@ -222,7 +222,11 @@ fn sig_json(sig: &syn::Signature) -> String {
     let mut inputs = Vec::new();
     for i in &sig.inputs {
         let recv = matches!(i, syn::FnArg::Receiver(_));
-        inputs.push(format!("{{\"span\":{},\"receiver\":{}}}", span_json(i.span()), recv));
+        let (wild, pat) = match i {
+            syn::FnArg::Typed(t) => (matches!(&*t.pat, syn::Pat::Wild(_)), span_json(t.pat.span())),
+            _ => (false, "null".to_string()),
+        };
+        inputs.push(format!("{{\"span\":{},\"receiver\":{},\"wild\":{},\"pat\":{}}}", span_json(i.span()), recv, wild, pat));
     }
     let ret = match &sig.output {
         syn::ReturnType::Default => "null".to_string(),
